@@ -47,6 +47,8 @@ def make_tokens(kinds, inv=0):
             toks.append(("flag", "o", (shx.Sym(f"Yrel{inv}_{i}", relative=True),)))
         elif k == "drel":
             toks.append(("flag", "d", (shx.Sym(f"Xrel{inv}_{i}", relative=True),)))
+        elif k == "durl":
+            toks.append(("flag", "d", (shx.Sym(f"Xurl{inv}_{i}", url=True),)))
         elif k == "x":
             toks.append(("flag", "x", None))
         elif k == "dmiss":
@@ -69,10 +71,10 @@ def classify(kinds):
             return {"kind": "bad_flag"}
     if rest:
         return {"kind": "stray"}
-    d_idx = max([i for i, k in enumerate(kinds) if k in ("d", "drel")], default=None)
+    d_idx = max([i for i, k in enumerate(kinds) if k in ("d", "drel", "durl")], default=None)
     o_idx = max([i for i, k in enumerate(kinds) if k in ("o", "orel")], default=None)
     return {"kind": "ok", "compile": "r" not in flags, "run": "c" not in flags, "d": d_idx, "o": o_idx,
-            "d_rel": d_idx is not None and kinds[d_idx] == "drel", "o_rel": o_idx is not None and kinds[o_idx] == "orel"}
+            "d_rel": d_idx is not None and kinds[d_idx] == "drel", "d_url": d_idx is not None and kinds[d_idx] == "durl", "o_rel": o_idx is not None and kinds[o_idx] == "orel"}
 
 
 def check_path(e, p, inv, kinds, backend):
@@ -130,7 +132,7 @@ def check_path(e, p, inv, kinds, backend):
                 fl = delivered[2]
                 if exp["d"] is not None:
                     # a relative operand names a file relative to the directory the CALLER stands in (/LOCAL in the model)
-                    want = ("echo", f"/LOCAL/<Xrel{inv}_{exp['d']}>" if exp.get("d_rel") else f"<X{inv}_{exp['d']}>")
+                    want = ("echo", f"/LOCAL/<Xrel{inv}_{exp['d']}>" if exp.get("d_rel") else (f"<Xurl{inv}_{exp['d']}>" if exp.get("d_url") else f"<X{inv}_{exp['d']}>"))
                     if fl != want:
                         viol.append(f"-d operand is not the sole input: job read {fl}, expected {want}")
                 else:
@@ -224,6 +226,8 @@ def replay_path(e, p, history_kinds, backend, root: FsPath):
                 symmap[f"Yrel{inv}_{i}"] = f"outrel{inv}_{i}"
             if k == "drel":
                 symmap[f"Xrel{inv}_{i}"] = f"inrel{inv}_{i}.root"
+            if k == "durl":
+                symmap[f"Xurl{inv}_{i}"] = f"root://some.host//store/in{inv}_{i}.root"
     cvs = "cvsroot"
     mentioned = set()
 
@@ -305,6 +309,8 @@ def replay_path(e, p, history_kinds, backend, root: FsPath):
                 argv += ["-o", symmap[f"Yrel{inv}_{i}"]]
             elif k == "drel":
                 argv += ["-d", symmap[f"Xrel{inv}_{i}"]]
+            elif k == "durl":
+                argv += ["-d", symmap[f"Xurl{inv}_{i}"]]
             elif k == "dmiss":
                 argv.append("-d")
             elif k == "w":
@@ -413,7 +419,8 @@ def main():
     hist_alpha = [["c"], ["r", "d", "o"], ["r"], [], ["d", "o"], ["r", "o"]]
     histories = [[v] for v in vectors]
     # operands given RELATIVE to the caller's directory (the scripts change directory before they use them)
-    histories += [[["orel"]], [["d", "orel"]], [["drel", "o"]], [["drel", "orel"]], [["c"], ["r", "drel", "orel"]], [["c"], ["r", "orel"]]]
+    histories += [[["orel"]], [["d", "orel"]], [["drel", "o"]], [["drel", "orel"]], [["c"], ["r", "drel", "orel"]], [["c"], ["r", "orel"]],
+                  [["durl", "o"]], [["durl"]], [["c"], ["r", "durl", "o"]]]
     hl = 2 if a.tier == "quick" else 3
     for n in range(2, hl + 1):
         for combo in itertools.product(hist_alpha, repeat=n):
